@@ -924,62 +924,93 @@ theorem newModel_nonempty (pns : Str) (r : Rule) (m : Model) (h : newModel pns r
 
 /-! ## 4. One rule through the builder -/
 
-/-- Trust-domain migration leaves the model of this rule unchanged (e.g. a single trust domain
-    `cluster.local`, or no `principals` / `trustDomains` values that name the mesh's trust
-    domains). The alias case is treated by `trustdomain_alias_correct`. -/
-def MigrationNoop (o : BuildOpts) (pns : Str) (r : Rule) : Prop :=
+/-- `MigrateTrustDomain` does not change what the rule's model matches, read with the statement's
+    alias semantics (`expandRule`). Discharged by `migrationSem_of_noop` (migration changes
+    nothing) or `migration_sem` (plain bundle and values) in Theorems.lean. -/
+def MigrationSem (o : BuildOpts) (req : Request) (pns : Str) (r : Rule) : Prop :=
   ∀ m, newModel pns r = some m →
-    migrateTrustDomain o.bundle (nBasePrincipals pns r) m = m
+    modelSem req (migratedModel o pns r m) = ruleMatches pns (expandRule o.bundle r) req
 
 def RuleExact (o : BuildOpts) (req : Request) (pns : Str) (r : Rule) : Prop :=
-  ∀ m, newModel pns r = some m → ModelExact o.forTCP o.useAuth req m
+  ∀ m, newModel pns r = some m → ModelExact o.forTCP o.useAuth req (migratedModel o pns r m)
 
 def RuleTranslated (o : BuildOpts) (pns : Str) (r : Rule) : Prop :=
-  ∀ m, newModel pns r = some m → modelTranslated o.forTCP o.useAuth m = true
+  ∀ m, newModel pns r = some m → modelTranslated o.forTCP o.useAuth (migratedModel o pns r m) = true
+
+theorem migrated_nonempty (o : BuildOpts) (pns : Str) (r : Rule) (m : Model)
+    (h : m.permissions ≠ [] ∧ m.principals ≠ []) :
+    (migratedModel o pns r m).permissions ≠ [] ∧ (migratedModel o pns r m).principals ≠ [] := by
+  unfold migratedModel migrateTrustDomain
+  refine ⟨h.1, ?_⟩
+  simp only [ne_eq, List.map_eq_nil_iff]
+  exact h.2
+
+theorem expandCondition_key (b : List Str) (c : Condition) : (expandCondition b c).key = c.key := by
+  unfold expandCondition
+  split
+  · rfl
+  · split <;> rfl
+
+theorem baseRules_none_expand (req : Request) (b : List Str) (pns : Str) (ws : List Condition)
+    (perm prin : List MRule) (h : baseRules pns ws perm prin = none) :
+    (ws.map (expandCondition b)).all (whenHolds pns · req) = false := by
+  induction ws generalizing perm prin with
+  | nil => simp [baseRules] at h
+  | cons c cs ih =>
+    simp only [baseRules] at h
+    cases hc : classify pns c.key with
+    | none => simp [whenHolds, expandCondition_key, hc]
+    | some g =>
+      simp only [hc] at h
+      split at h <;> simp [ih _ _ h]
+
+theorem newModel_none_expand (req : Request) (b : List Str) (pns : Str) (r : Rule)
+    (h : newModel pns r = none) : ruleMatches pns (expandRule b r) req = false := by
+  unfold newModel at h
+  cases hb : baseRules pns r.whens [] [] with
+  | some bb => simp [hb] at h
+  | none => simp [ruleMatches, expandRule, baseRules_none_expand req b pns r.whens [] [] hb]
 
 theorem compileRule_exact (o : BuildOpts) (allow : Bool) (req : Request) (pns : Str) (r : Rule)
-    (e : EPolicy) (h : compileRule o allow pns r = some e) (hmig : MigrationNoop o pns r)
+    (e : EPolicy) (h : compileRule o allow pns r = some e) (hmig : MigrationSem o req pns r)
     (hex : RuleExact o req pns r) (htr : allow = true ∨ RuleTranslated o pns r) :
-    evalPolicy e req = ruleMatches pns r req := by
+    evalPolicy e req = ruleMatches pns (expandRule o.bundle r) req := by
   unfold compileRule at h
   cases hm : newModel pns r with
   | none => simp [hm] at h
   | some m =>
     simp only [hm] at h
-    rw [hmig m hm] at h
-    rw [generate_exact m _ _ allow req e h (hex m hm) (htr.imp id (fun t => t m hm))]
-    exact newModel_sem req pns r m hm
+    rw [← hmig m hm]
+    exact generate_exact (migratedModel o pns r m) _ _ allow req e h (hex m hm)
+      (htr.imp id (fun t => t m hm))
 
 /-- A rule is skipped by the DENY / AUDIT builder only when it has a condition on an unknown
     attribute - and then it matches nothing in the policy semantics either. -/
 theorem compileRule_none (o : BuildOpts) (allow : Bool) (req : Request) (pns : Str) (r : Rule)
-    (h : compileRule o allow pns r = none) (hmig : MigrationNoop o pns r)
-    (htr : allow = false ∨ RuleTranslated o pns r) : ruleMatches pns r req = false := by
+    (h : compileRule o allow pns r = none)
+    (htr : allow = false ∨ RuleTranslated o pns r) :
+    ruleMatches pns (expandRule o.bundle r) req = false := by
   unfold compileRule at h
   cases hm : newModel pns r with
-  | none => exact newModel_none req pns r hm
+  | none => exact newModel_none_expand req o.bundle pns r hm
   | some m =>
     simp only [hm] at h
-    rw [hmig m hm] at h
-    obtain ⟨e, he⟩ := generate_some m o.forTCP o.useAuth allow (newModel_nonempty pns r m hm)
-      (htr.imp id (fun t => t m hm))
-    rw [he] at h; cases h
+    obtain ⟨e, he⟩ := generate_some (migratedModel o pns r m) o.forTCP o.useAuth allow
+      (migrated_nonempty o pns r m (newModel_nonempty pns r m hm)) (htr.imp id (fun t => t m hm))
+    have : generate (migrateTrustDomain o.bundle (nBasePrincipals pns r) m) o.forTCP o.useAuth allow = some e := he
+    rw [this] at h; cases h
 
 theorem compileRule_deny (o : BuildOpts) (req : Request) (pns : Str) (r : Rule)
-    (e : EPolicy) (h : compileRule o false pns r = some e) (hmig : MigrationNoop o pns r)
-    (hex : RuleExact o req pns r) (hs : ruleMatches pns r req = true) :
+    (e : EPolicy) (h : compileRule o false pns r = some e) (hmig : MigrationSem o req pns r)
+    (hex : RuleExact o req pns r) (hs : ruleMatches pns (expandRule o.bundle r) req = true) :
     evalPolicy e req = true := by
   unfold compileRule at h
   cases hm : newModel pns r with
   | none => simp [hm] at h
   | some m =>
     simp only [hm] at h
-    rw [hmig m hm] at h
-    apply generate_deny m _ _ req e h (hex m hm)
-    rw [newModel_sem req pns r m hm]; exact hs
-
-
-
+    apply generate_deny (migratedModel o pns r m) _ _ req e h (hex m hm)
+    rw [hmig m hm]; exact hs
 
 /-! ## 5. The builder: one RBAC per action, map of named policies -/
 
